@@ -495,6 +495,19 @@ class InstanceWriteProvider(BaseProvider):
             if multi_ns:
                 multi_ns.append(namespace)
                 instance_name_copy = InstanceName.copy()
+                # Confirm that the instance exists in all of the namespaces
+                # before deleting it in any of them, so that a failed
+                # DeleteInstance leaves the CIM repository unchanged.
+                for ns in multi_ns:
+                    self.validate_namespace(ns)
+                    instance_name_copy.namespace = ns
+                    instance_store = self.cimrepository.get_instance_store(ns)
+                    if not instance_store.object_exists(instance_name_copy):
+                        raise CIMError(
+                            CIM_ERR_NOT_FOUND,
+                            _format("Instance {0!A} to be deleted does not "
+                                    "exist in namespace {1!A}. Nothing "
+                                    "deleted.", instance_name_copy, ns))
                 for ns in multi_ns:
                     instance_name_copy.namespace = ns
                     instance_store = self.cimrepository.get_instance_store(ns)
